@@ -413,6 +413,7 @@ static void st_create(int scope)
     int i;
     ns = scope & 15; nw = (scope >> 4) & 15; nu = (scope >> 8) & 15;
     nA = 0;
+    memset(S, 0x77, sizeof(S)); memset(W, 0x77, sizeof(W)); memset(U, 0x77, sizeof(U));    /* recycled storage */
     /* both documented ways of making the objects: the init functions and the static initialiser macros */
     for (i = 0; i < ns; i++) {
         if (use_macro) S[i] = (cstl_shared_ptr_t)CSTL_SHARED_PTR_INITIALIZER(S[i]); else cstl_shared_ptr_init(&S[i]);
